@@ -75,10 +75,13 @@ def case_extrap(col, p):
     override = xsrc == 'dyadic_override'       # explicit x list given although the results carry their own extrap_x: the explicit list wins
     if override:
         xsrc = 'dyadic'
-    xmap = {pts: x_of(pts, xsrc) for pts in order}
+    # 'tiny': the same dyadic x values scaled by 2^-33 (about 1e-9, the size of the first grid spacing for several thousand grid points), the model a
+    # polynomial in x / 2^-33: extrapolation has no absolute scale in x
+    xunit = 2.0 ** -33 if xsrc == 'tiny' else 1.0
+    xmap = {pts: x_of(pts, 'dyadic' if xsrc == 'tiny' else xsrc) * xunit for pts in order}
 
     def model(scale, pts):
-        y = scale * model_value(xmap[pts], seed, k, deg, mode) if mode != 'log' else model_value(xmap[pts], seed, k, deg, mode) * scale
+        y = scale * model_value(xmap[pts] / xunit, seed, k, deg, mode) if mode != 'log' else model_value(xmap[pts] / xunit, seed, k, deg, mode) * scale
         if rtype == 'spectrum':
             fs = dadi.Spectrum(y, mask_corners=True, pop_ids=['popA'])
             fs.mask[2] = True
@@ -123,7 +126,7 @@ def case_extrap(col, p):
         col.violation('C07:make_extrap_func:accepts_k=%d' % k, p, 'no ValueError for %d grid sizes' % k)
         return
     # oracle
-    ys = {pts: model_value(xmap[pts], seed, k, deg, mode) for pts in order}
+    ys = {pts: model_value(xmap[pts] / xunit, seed, k, deg, mode) for pts in order}
     xs = [xmap[pts] for pts in order]
     resd = np.ma.getdata(res) if rtype == 'spectrum' else np.asarray(res)
     ents = range(NENT)
@@ -156,7 +159,7 @@ def case_extrap(col, p):
         worst = max(worst, err / tol)
         # exactness for polynomial dependence: dyadic x's and integer coefficients make every y exact, so the
         # Lagrange value IS c_0 (linear mode)
-        if mode == 'lin' and xsrc == 'dyadic':
+        if mode == 'lin' and xsrc in ('dyadic', 'tiny'):
             c0 = coeffs(seed, k, deg, e)[0]
             if ex != c0:
                 col.violation('harness:oracle', p, 'exact Lagrange %s != c0 %s' % (ex, c0))
@@ -340,7 +343,7 @@ def run(ctx):
         for order in orders:
             for deg in degs:
                 for mode in ('lin', 'log'):
-                    for rtype, xsrc in (('array', 'dyadic'), ('array', 'grid'), ('array', 'attr'), ('spectrum', 'grid'), ('spectrum', 'dyadic_override')):
+                    for rtype, xsrc in (('array', 'dyadic'), ('array', 'grid'), ('array', 'attr'), ('spectrum', 'grid'), ('spectrum', 'dyadic_override'), ('array', 'tiny')):
                         for call in ('pos', 'kw'):
                             if k == 6 and call == 'kw' and order != sorted(order):
                                 continue
